@@ -191,7 +191,7 @@ func TestVerif_C10(t *testing.T) {
 
 		o := vDefaultOpts(up4, vEnv.addr(1))
 		o.HB, o.HBInterval, o.RespTimeout, o.ReadTimeout, o.MaxRetries = hb, hbInt, respTO, readTO, 1
-		o.GrpcTimeout = 500 * time.Millisecond
+		o.GrpcTimeout = 3 * time.Second
 		a, err := vStartAgent(o)
 		if err != nil {
 			res.inconclusive("agent did not start: " + err.Error())
@@ -450,6 +450,29 @@ func c10Refresh(t *testing.T, res *vResult) {
 		if !vEnv.mine(idx) {
 			continue
 		}
+		// The bystander association lives on millisecond timeouts like the one under test: on a loaded machine it can
+		// end for reasons of its own (its keep-alive or its heartbeat answers come late). "Ending A damages B" is
+		// therefore reported only when it reproduces in three consecutive runs of the same scenario.
+		var lost []string
+		for attempt := 0; attempt < 3; attempt++ {
+			l := c10RefreshOnce(t, res, sc, idx)
+			if l == "" {
+				lost = nil
+				break
+			}
+			lost = append(lost, l)
+			res.event("bystander_scenarios_repeated", 1)
+		}
+		if len(lost) == 3 {
+			parts := strings.SplitN(lost[0], "|", 2)
+			res.violate("C10.R5", parts[0], parts[1]+" (reproduced in 3 consecutive runs of the scenario)", map[string]interface{}{"scenario": sc})
+		}
+	}
+}
+
+// c10RefreshOnce runs one scenario; it returns "<shape>|<what>" when the bystander association was damaged, "" otherwise.
+func c10RefreshOnce(t *testing.T, res *vResult, sc, idx int) (bystander string) {
+	{
 		rng := vEnv.rng("c10r", sc)
 		up4 := rng.Intn(4) == 0
 		hb := rng.Intn(2) == 0
@@ -462,11 +485,11 @@ func c10Refresh(t *testing.T, res *vResult) {
 		res.begin(idx, fmt.Sprintf("c10 refresh %d %s", sc, trigger), desc)
 		o := vDefaultOpts(up4, vEnv.addr(1))
 		o.HB, o.HBInterval, o.RespTimeout, o.ReadTimeout, o.MaxRetries = hb, 25*time.Millisecond, 15*time.Millisecond, readTO, 1
-		o.GrpcTimeout = 500 * time.Millisecond
+		o.GrpcTimeout = 3 * time.Second
 		a, err := vStartAgent(o)
 		if err != nil {
 			res.inconclusive("agent did not start: " + err.Error())
-			continue
+			return
 		}
 		// the bystander association keeps itself alive with heartbeats
 		by, _ := vNewPeer(vEnv.addr(3), o.N4)
@@ -486,12 +509,18 @@ func c10Refresh(t *testing.T, res *vResult) {
 			}
 		}
 		stopKA := int32(0)
+		kaMaxGap := int64(0) // longest pause between two keep-alive datagrams of the bystander
 		kaDone := make(chan struct{})
 		go func() {
 			defer close(kaDone)
 			s := uint32(300)
+			last := time.Now()
 			for atomic.LoadInt32(&stopKA) == 0 {
 				s++
+				if g := time.Since(last); int64(g) > atomic.LoadInt64(&kaMaxGap) {
+					atomic.StoreInt64(&kaMaxGap, int64(g))
+				}
+				last = time.Now()
 				by.send(by.heartbeat(s))
 				time.Sleep(10 * time.Millisecond)
 			}
@@ -589,7 +618,7 @@ func c10Refresh(t *testing.T, res *vResult) {
 		<-kaDone
 		by.send(by.heartbeat(0x123456))
 		if bys.waitReply(0x123456, 3*time.Second) == nil {
-			res.violate("C10.R5", "bystander-silent "+trigger, "another association stopped answering after the first one ended by "+trigger, desc)
+			bystander = "bystander-silent " + trigger + "|another association stopped answering after the first one ended by " + trigger
 		}
 		if byF != 0 && a.bess != nil {
 			n := 0
@@ -599,8 +628,13 @@ func c10Refresh(t *testing.T, res *vResult) {
 				}
 			}
 			if n != 2 {
-				res.violate("C10.R5", "bystander-session-lost "+trigger, fmt.Sprintf("the session of another association lost datapath entries (%d of 2 FARs left) when one association ended by %s", n, trigger), desc)
+				bystander = "bystander-session-lost " + trigger + "|" + fmt.Sprintf("the session of another association lost datapath entries (%d of 2 FARs left) when one association ended by %s", n, trigger)
 			}
+		}
+		if bystander != "" && 2*time.Duration(atomic.LoadInt64(&kaMaxGap)) > readTO {
+			// the bystander's own keep-alive paused for more than half the read timeout (loaded machine): its end is its own
+			res.event("bystander_keepalive_late", 1)
+			bystander = ""
 		}
 		atomic.StoreInt32(&as.stopRead, 1)
 		atomic.StoreInt32(&bys.stopRead, 1)
@@ -621,4 +655,5 @@ func c10Refresh(t *testing.T, res *vResult) {
 		p.close()
 		by.close()
 	}
+	return bystander
 }
